@@ -246,7 +246,7 @@ class LiteralMarshaller(AbstractMarshaller[LiteralT], tp.Generic[LiteralT]):
         Raises:
             ValueError: If `val` is not a member of the bound `Literal` type.
         """
-        if val in self.values:
+        if inspection.isliteralmember(val, self.values):
             return val  # type: ignore[return-value]
 
         raise ValueError(f"{val!r} is not one of {self.values!r}")
